@@ -54,3 +54,33 @@ fn primnames_table() {
     kani::cover!(i == 14, "I256 arm reached");
     assert!(same(got, expected_name(p)), "primitive_type_description names the primitive");
 }
+
+// The same table for the "refer to a type by name" path (type_name_with_type_params, Primitive arm):
+// every primitive used as a generic argument / element of a named type is spelled like the table above.
+// Loop-free over all 15 values => complete for that arm; the registry is not consulted on this path.
+#[kani::proof]
+#[kani::unwind(8)]
+fn primnames_in_type_name() {
+    let all = [
+        TypeDefPrimitive::Bool, TypeDefPrimitive::Char, TypeDefPrimitive::Str,
+        TypeDefPrimitive::U8, TypeDefPrimitive::U16, TypeDefPrimitive::U32, TypeDefPrimitive::U64,
+        TypeDefPrimitive::U128, TypeDefPrimitive::U256,
+        TypeDefPrimitive::I8, TypeDefPrimitive::I16, TypeDefPrimitive::I32, TypeDefPrimitive::I64,
+        TypeDefPrimitive::I128, TypeDefPrimitive::I256,
+    ];
+    let i: usize = kani::any();
+    kani::assume(i < all.len());
+    let ty: Type<PortableForm> = Type {
+        path: scale_info::Path { segments: Vec::new() },
+        type_params: Vec::new(),
+        type_def: TypeDef::Primitive(all[i].clone()),
+        docs: Vec::new(),
+    };
+    let reg = PortableRegistry { types: Vec::new() };
+    let got = type_name_with_type_params(&ty, &reg);
+    kani::cover!(i == 2, "Str arm reached");
+    assert!(same(&got, expected_name(&all[i])), "a primitive is referred to by its table name");
+    core::mem::forget(got);
+    core::mem::forget(ty);
+    core::mem::forget(reg);
+}
